@@ -4,8 +4,14 @@
   Same model and invariant as C03 (Proofs/HeapInv.lean).  `outOf s id` counts the dispatch records
   of node `id` whose `PutWrapper` has not run.  Hypothesis throughout: fewer than 2^31−1
   dispatches in the history (a load ≥ 0 then always means "marked down").
+
+  `ApertureBalancerSink` inherits `__Put`, `PutWrapper` and `_RemoveSink`, and removes members from its heap
+  on its own account (contraction, jitter).  The `C04_aperture_*` theorems decide the property on that
+  balancer and on the heap balancer behind base.py's gate (component `aperture4`, specification
+  `specC04A`, Adapter/ApertureHeap.lean; invariant `HInv`, Proofs/HeapAgnostic.lean).
 -/
 import ScalesModel.Proofs.HeapMisc
+import ScalesModel.Proofs.LBHeap
 namespace Scales.Heap
 
 /-- **load conservation.**  In every state with the invariant, a node's load is its number of
@@ -119,5 +125,60 @@ example : (comp 4).wf () c04Hist = true := by
   simp [comp, c04Hist, wfOps, opsOk, getCount, step, HS.join, HS.leave, HS.addSink, HS.removeSink, HS.findByEp,
     HS.fixUp, HS.fixDown, HS.init, HS.size, HS.at, HS.idAt, HS.node, Node.lt, HS.swap, HS.setIndex, HS.setNode,
     HS.setChan, HS.get, HS.getLoop, HS.scan, noHook, HS.put, HS.putNode, HS.putDraws, Idle, Penalty, chOpen]
+
+/-! ### the balancers that inherit `__Put` / `_RemoveSink`: aperture balancer, heap balancer behind the gate -/
+
+/-- **load conservation and close discipline on the aperture balancer.**  After every legal operation list
+    (`LB.wf`) with fewer than 2^31−1 dispatches — whatever the aperture did on the way: expansion on load, on a
+    mark-down inside `__Get`, on a failed open or a leave; contraction; jitter — every node's load is its number
+    of outstanding dispatches measured from `Idle`, or from 0 while it is marked down, never below `Idle`; a node
+    in the heap has not been closed; a node that left the heap (leave or contraction) has been closed exactly
+    once if it has drained or was marked down, and not at all while requests are outstanding on it -/
+theorem C04_aperture_load_conserved (cfg : Scales.Aperture.Cfg) (ops : List Scales.LB.Op)
+    (h : Scales.LB.wfH cfg ops = true) (id : Nat)
+    (hl : id < (Scales.LB.runSt cfg (Scales.LB.init cfg) ops).sub.hs.nodes.length) :
+    (((Scales.LB.runSt cfg (Scales.LB.init cfg) ops).sub.hs.node id).load ≥ 0 →
+      ((Scales.LB.runSt cfg (Scales.LB.init cfg) ops).sub.hs.node id).load =
+        (outOf (Scales.LB.runSt cfg (Scales.LB.init cfg) ops).sub.hs id : Int)) ∧
+    (((Scales.LB.runSt cfg (Scales.LB.init cfg) ops).sub.hs.node id).load < 0 →
+      ((Scales.LB.runSt cfg (Scales.LB.init cfg) ops).sub.hs.node id).load =
+        Idle + (outOf (Scales.LB.runSt cfg (Scales.LB.init cfg) ops).sub.hs id : Int)) ∧
+    Idle ≤ ((Scales.LB.runSt cfg (Scales.LB.init cfg) ops).sub.hs.node id).load ∧
+    (InHeap (Scales.LB.runSt cfg (Scales.LB.init cfg) ops).sub.hs id →
+      ((Scales.LB.runSt cfg (Scales.LB.init cfg) ops).sub.hs.node id).closed = 0) ∧
+    (¬ InHeap (Scales.LB.runSt cfg (Scales.LB.init cfg) ops).sub.hs id →
+      ((Scales.LB.runSt cfg (Scales.LB.init cfg) ops).sub.hs.node id).closed =
+        (if outOf (Scales.LB.runSt cfg (Scales.LB.init cfg) ops).sub.hs id = 0 ∨
+            ((Scales.LB.runSt cfg (Scales.LB.init cfg) ops).sub.hs.node id).load ≥ 0 then 1 else 0)) := by
+  obtain ⟨hw, hb⟩ := (Scales.LB.wfH_iff cfg ops).1 h
+  have hi := (Scales.LB.run_HInv cfg ops _ _ (Scales.LB.RInv.init cfg) Scales.LB.HInv_init
+    (Scales.LB.wf_proto hw) hb).1
+  obtain ⟨a1, a2, a3, _⟩ := hi.book.pen_iff id hl
+  exact ⟨a1.mp, a2.mp, a3, hi.book.closedIn id, hi.book.closedOff id hl⟩
+
+/-- **C04 on the aperture balancer, specification level.**  For every configuration and every operation list
+    satisfying `wfH`, the history of the model satisfies the executable specification `specC04A`, the predicate
+    `./check C04` evaluates on the real balancer's observations (component `aperture4`). -/
+theorem C04_aperture_model_satisfies_spec (cfg : Scales.Aperture.Cfg) (ops : List Scales.LB.Op)
+    (h : Scales.LB.comp4A.wf cfg ops = true) :
+    Scales.LB.comp4A.spec cfg (Scales.LB.comp4A.modelTrace cfg ops) = Verdict.ok := by
+  have h' : Scales.LB.wfH cfg ops = true := h
+  obtain ⟨hw, hb⟩ := (Scales.LB.wfH_iff cfg ops).1 h'
+  exact Scales.LB.specC04A_trace cfg ops _ _ 0 (Scales.LB.RInv.init cfg) Scales.LB.HInv_init
+    (Scales.LB.wf_proto hw) hb
+
+/-! non-vacuity: an aperture of min_size 2 over three members; both active members loaded; the server set
+    drops member 0 while a request is outstanding on it (the aperture takes in endpoint 2 instead); the request
+    completes (the channel is closed then, not before); a duplicate completion; traffic on the new member; an
+    idle completion with a drawn slot -/
+def c04ApCfg : Scales.Aperture.Cfg := ⟨true, 2, 10, 1 / 2, 2, false, [0, 1, 2]⟩
+def c04ApHist : List Scales.LB.Op :=
+  [.opn, .loaded [0, 1, 2] ⟨[], []⟩, .chan 0 2, .chan 1 2, .get ⟨[], [⟨0, 0⟩]⟩, .get ⟨[], [⟨0, 0⟩]⟩,
+   .leave 0 ⟨[2], []⟩, .put 0 0 ⟨[], [⟨0, 0⟩]⟩, .put 0 0 ⟨[], []⟩, .chan 2 2, .get ⟨[], [⟨0, 0⟩]⟩,
+   .put 1 1 ⟨[], [⟨0, 0⟩]⟩]
+
+example : Scales.LB.comp4A.wf c04ApCfg c04ApHist = true := by decide +kernel
+example : ((Scales.LB.runSt c04ApCfg (Scales.LB.init c04ApCfg) c04ApHist).sub.hs.node 0).closed = 1 ∧
+    ¬ (0 ∈ (Scales.LB.runSt c04ApCfg (Scales.LB.init c04ApCfg) c04ApHist).sub.hs.heap) := by decide +kernel
 
 end Scales.Heap
